@@ -18,7 +18,8 @@ VARIABLE l
 SetOf(s) == {s[i] : i \in 1..Len(s)}
 
 Obl(e) ==
-  CASE e.op = "MNew" -> <<>>
+  \* creation (and refused creation attempts with arguments of other lengths) leaves its arguments alone, too
+  CASE e.op = "MNew" -> << <<"frame-condition", e.changed = <<>> >> >>
     [] e.op = "MCall" -> <<
          <<"quiet", e.panic = "">>,
          <<"frame-condition", e.changed = <<>> >>,
